@@ -137,7 +137,7 @@ let () =
             | [] -> failwith "libsol arity")
          | "todouble", [ v ] ->
            let q0 = q_of_string v in
-           Printf.printf "A %s %s %s\n" id (string_of_q (to_double q0)) (string_of_q (ulp0 q0))
+           Printf.printf "A %s %s %s\n" id (string_of_q (to_double q0)) (string_of_q (ulp_of q0))
          | "kkt", [ sem ] ->
            let hdr = (match next_tokens ic with Some h -> h | None -> failwith "eof") in
            let (p, _) = read_ilp ic hdr in
